@@ -125,7 +125,7 @@ pub fn tx_scenario(seed: u64, i: usize) -> Scenario {
 
 fn build(_ctx: &Ctx, tier: Tier, seed: u64) -> Vec<Job<'static>> {
     let (n_tx, n_pair) = match tier {
-        Tier::Quick => (40_000, 8_000),
+        Tier::Quick => (100_000, 20_000),
         Tier::Thorough => (2_000_000, 400_000),
     };
     let j0 = Job { label: "real sender vs scripted receiver: NAKs of arbitrary shape at arbitrary points (also mid first pass), EOF acknowledged or not, Finished or not, occasional cancel".into(), n: n_tx, gen: Box::new(move |i| tx_scenario(seed, i)) };
